@@ -1,5 +1,5 @@
 (* Proofs/ParseRefEq.v — Parse = reference decoder (Spec/RFC.v) on the projection C02 constrains, for every
-   well-formed slice outside the six recorded classes.  First on canonical slices (capacity = length), layer by
+   well-formed slice outside the three recorded classes.  First on canonical slices (capacity = length), layer by
    layer; then transferred to every capacity by Proofs/ParseSim.v. *)
 From PV Require Import Base.Prelude Base.Slice Model.Parse Spec.RFC Model.ParseKnown Model.ParseAlias Proofs.Parse Proofs.ParseSim Proofs.ParseRef.
 Open Scope N_scope.
@@ -161,34 +161,27 @@ Lemma arp_agrees c b f :
   f_offP f = 14%nat -> (14 <= List.length b)%nat -> pre_l4 f ->
   f_off4 f = 0%nat -> f_off6 f = 0%nat -> a_ip (f_src f) = [] -> a_ip (f_dst f) = [] ->
   let pkt := skipn 14 b in
-  ~ ((List.length pkt < 28)%nat /\ ((List.length pkt <= 4)%nat \/ byte_at pkt 4 = 6)) ->
-  ~ ((28 <= List.length pkt)%nat /\ byte_at pkt 4 <> 6) ->
   agrees (parse_arp c (cs b) f) (ref_arp (a_mac (f_src f)) (a_mac (f_dst f)) pkt 14).
 Proof.
-  intros H0 H1 (HU & HT & Hsp & Hdp) H4 H6 Hs Hd pkt Hk1 Hk2. pose proof (wf_cs b) as Hwf.
+  intros H0 H1 (HU & HT & Hsp & Hdp) H4 H6 Hs Hd pkt. pose proof (wf_cs b) as Hwf.
   unfold parse_arp, ref_arp.
   rewrite payload_view_pos by (cbn; lia). cbn [bind f_offP set_id]. rewrite H0.
   cbn [len cs arr]. fold pkt. assert (Hl : List.length pkt = (List.length b - 14)%nat) by (unfold pkt; apply skipn_length).
   rewrite <- Hl. unfold bytes_at.
-  destruct (Nat.ltb_spec (List.length pkt) 28) as [Hlt|Hge]; cbn [bind].
-  - assert (5 <= List.length pkt)%nat by (destruct (Nat.le_gt_cases (List.length pkt) 4); [exfalso; apply Hk1; auto|lia]).
-    rewrite idx_ok by (cbn [len]; lia). cbn [bind arr]. fold (byte_at pkt 4).
-    destruct (N.eqb_spec (byte_at pkt 4) 6) as [E|E]; [exfalso; apply Hk1; auto|].
-    cbn [negb agrees]. reflexivity.
-  - fold (byte_at pkt 4). destruct (N.eqb_spec (byte_at pkt 4) 6) as [E|E]; [|exfalso; apply Hk2; auto]. cbn [negb].
-    rewrite sl_ok by (unfold cap; cbn [arr]; lia). cbn [bind].
-    destruct (gate4 _ _ _); cbn [bind]; [rewrite sl_ok by (unfold cap; cbn [arr]; lia); cbn [bind]|];
-    cbn [agrees]; unfold proj; cbn [f_id f_src f_dst f_off4 f_off6 f_offU f_offT f_offP set_id a_mac a_ip a_port];
-    rewrite H4, H6, HU, HT, Hs, Hd, Hsp, Hdp; reflexivity.
+  destruct (Nat.ltb_spec (List.length pkt) 28) as [Hlt|Hge]; cbn [bind agrees]; [reflexivity|].
+  rewrite idx_ok by (cbn [len]; lia). cbn [bind arr]. fold (byte_at pkt 4).
+  destruct (N.eqb_spec (byte_at pkt 4) 6) as [E|E]; cbn [negb agrees]; [|reflexivity].
+  rewrite sl_ok by (unfold cap; cbn [arr]; lia). cbn [bind].
+  destruct (gate4 _ _ _); cbn [bind]; [rewrite sl_ok by (unfold cap; cbn [arr]; lia); cbn [bind]|];
+  cbn [agrees]; unfold proj; cbn [f_id f_src f_dst f_off4 f_off6 f_offU f_offT f_offP set_id a_mac a_ip a_port];
+  rewrite H4, H6, HU, HT, Hs, Hd, Hsp, Hdp; reflexivity.
 Qed.
 
 Lemma known_C02_none b : known_C02 b = None ->
-  k_vlan_short b = false /\ k_arp_trunc b = false /\ k_arp_hlen b = false /\
   k_ip4_ihl b = false /\ k_ip4_totallen b = false /\ k_ip6_trailing b = false.
 Proof.
   unfold known_C02. intros H.
-  destruct (k_vlan_short b); [discriminate|]. destruct (k_arp_trunc b); [discriminate|].
-  destruct (k_arp_hlen b); [discriminate|]. destruct (k_ip4_ihl b); [discriminate|].
+  destruct (k_ip4_ihl b); [discriminate|].
   destruct (k_ip4_totallen b); [discriminate|]. destruct (k_ip6_trailing b); [discriminate|]. repeat split.
 Qed.
 
@@ -201,7 +194,7 @@ Theorem eq_ref_canon c b :
   bytes_ok b -> N.of_nat (List.length b) < 65536 -> known_C02 b = None ->
   agrees (parse c (cs b)) (ref_decode b).
 Proof.
-  intros Hb Hn Hk. apply known_C02_none in Hk. destruct Hk as (Kv & Kat & Kah & Ki & Kt & K6).
+  intros Hb Hn Hk. apply known_C02_none in Hk. destruct Hk as (Ki & Kt & K6).
   pose proof (wf_cs b) as Hwf.
   unfold parse, ref_decode, ether_is_valid. cbn [len cs].
   destruct (Nat.leb_spec 14 (List.length b)) as [Hlen|Hlen]; destruct (Nat.ltb_spec (List.length b) 14); try lia;
@@ -211,8 +204,6 @@ Proof.
   change (be16 (nth 12 b 0) (nth 13 b 0)) with (word_at b 12).
   change (firstn (12 - 6) (skipn 6 b)) with (sub b 6 6). change (firstn (6 - 0) (skipn 0 b)) with (sub b 0 6).
   set (et := word_at b 12) in *. set (smac := sub b 6 6). set (dmac := sub b 0 6).
-  (* header length = 14 + tag block, and the frame is long enough for it *)
-  unfold k_vlan_short in Kv. fold et in Kv. destruct (Nat.leb_spec 14 (List.length b)); [|lia]. cbn [andb] in Kv.
   unfold tag_table, lookup.
   assert (Hnth6 : byte_at smac 0 = byte_at b 6).
   { unfold smac, sub, byte_at. destruct b as [|a0 [|a1 [|a2 [|a3 [|a4 [|a5 [|a6 r]]]]]]]; cbn in Hlen; try lia; reflexivity. }
@@ -257,15 +248,7 @@ Proof.
     { cbn [agrees]. reflexivity. }
     change (2054 <? 1536) with false. cbn [ethertype_table lookup]. change (2054 =? 2048) with false. change (2054 =? 34525) with false.
     change (2054 =? 2054) with true. cbv iota.
-    unfold k_arp_trunc, k_arp_hlen in Kat, Kah. fold et in Kat, Kah. rewrite E3, Ho in Kat, Kah.
-    destruct (Nat.leb_spec 14 (List.length b)); [|lia]. cbn [negb andb] in Kat, Kah. change (2054 =? 2054) with true in Kat, Kah. cbn [andb] in Kat, Kah.
-    apply arp_agrees; try reflexivity; try exact Hlen; [repeat split| |]; cbv zeta; rewrite byte_at_skipn, skipn_length; change (14 + 4)%nat with 18%nat.
-    - intros (A & B). destruct (Nat.ltb_spec (List.length b - 14) 28); [|lia]. cbn [andb] in Kat.
-      apply Bool.orb_false_iff in Kat. destruct Kat as [K1 K2].
-      destruct (Nat.leb_spec (List.length b - 14) 4); [discriminate|].
-      destruct B as [B|B]; [lia|]. rewrite B in K2. discriminate.
-    - intros (A & B). destruct (Nat.leb_spec 28 (List.length b - 14)); [|lia]. cbn [andb] in Kah.
-      destruct (N.eqb_spec (byte_at b 18) 6); [contradiction|discriminate]. }
+    apply arp_agrees; try reflexivity; try exact Hlen. repeat split. }
   (* the remaining EtherTypes: header length 14 / 18 / 22 *)
   cbn [orb].
   replace ((et =? 2048) || (et =? 34525) || (et =? 2054)) with false
@@ -275,11 +258,8 @@ Proof.
   { destruct (et =? 33024); [reflexivity|]. destruct (et =? 34984); reflexivity. }
   rewrite Hhdr. clear Hhdr.
   set (hl := (if N.eqb et 33024 then 18%nat else if N.eqb et 34984 then 22%nat else 14%nat)) in *.
-  assert (Hhl : (hl <= List.length b)%nat).
-  { unfold hl. apply Bool.orb_false_iff in Kv. destruct Kv as [K1 K2].
-    destruct (et =? 33024); [destruct (Nat.ltb_spec (List.length b) 18); [discriminate|lia]|].
-    destruct (et =? 34984); [destruct (Nat.ltb_spec (List.length b) 22); [discriminate|lia]|]. lia. }
-  destruct (Nat.ltb_spec (List.length b) hl); [lia|].
+  cbv iota. fold hl.
+  destruct (Nat.ltb_spec (List.length b) hl) as [Hs|Hhl]; [cbn [agrees]; reflexivity|].
   destruct (N.odd (byte_at b 6)) eqn:Ho; cbn [negb].
   { cbn [agrees]. reflexivity. }
   destruct (et <? 1536) eqn:Elt.
@@ -303,9 +283,7 @@ Theorem parse_eq_ref_partial c s :
   agrees (parse c s) (ref_decode (view s)).
 Proof.
   intros Hwf Hb Hn Hk.
-  assert (Hu : k_arp_unsafe (view s) = false).
-  { apply known_C02_none in Hk. destruct Hk as (_ & Kat & _). unfold k_arp_unsafe. rewrite Kat. reflexivity. }
-  rewrite (parse_canon c s Hwf Hu). change (of_bytes (view s)) with (cs (view s)).
+  rewrite (parse_canon c s Hwf). change (of_bytes (view s)) with (cs (view s)).
   apply eq_ref_canon; auto. rewrite (view_length s Hwf). exact Hn.
 Qed.
 
